@@ -38,7 +38,7 @@ def wPostC (i : Wid) : WPc → Nat
   | .taskEnd w _ | .rAcq w _ _ | .rSend w _ _ => ind w i
   | _ => 0
 def mPreC (i : Wid) : MPc → Nat
-  | .addAcq w | .addTStart w => ind w i
+  | .addAcq w | .addTStart w | .addAcqF w | .addTStartF w => ind w i
   | _ => 0
 def mPostC (i : Wid) : MPc → Nat
   | .clrPoll (.item (some r)) | .clrRecv (.item (some r)) => rmsgC i r
